@@ -167,6 +167,19 @@ func init() {
 	N("strconv.FormatUint", func(e *Exec, _ *frame, a []Value) Value {
 		return fmtInt(e, a[0], types.Uint64, e.needInt(a[1], "base"))
 	})
+	N("strconv.FormatFloat", func(e *Exec, _ *frame, a []Value) Value {
+		f, ok := a[0].(float64)
+		if !ok {
+			t := a[0].(Sym).t
+			// 'f'/'g' with shortest digits of a symbolic float: integral small values only
+			if fm := e.needInt(a[1], "fmt byte"); (fm == 'f' || fm == 'g') && e.needInt(a[2], "prec") == -1 {
+				return e.formatSymFloat(t)
+			}
+			panic(abortErr{"fragment", "strconv.FormatFloat on a symbolic float"})
+		}
+		e.path.noteNative("strconv.FormatFloat")
+		return mkStr(strconv.FormatFloat(f, byte(e.needInt(a[1], "fmt byte")), int(e.needInt(a[2], "prec")), int(e.needInt(a[3], "bits"))))
+	})
 	N("strconv.Quote", func(e *Exec, _ *frame, a []Value) Value {
 		return mkStr(strconv.Quote(e.needStr(a[0], "strconv.Quote")))
 	})
@@ -768,12 +781,13 @@ func (e *Exec) quoteSym(s Str) Str {
 }
 
 // formatSymFloat prints a symbolic float64 the way %v does, for the values whose
-// shortest representation is an integer without exponent: integral, |x| < 1e15.
+// shortest representation is an integer without exponent: integral, |x| < 1e6
+// (%v is %g with the shortest digits: exponent form starts at 1e+06).
 // Anything else is outside the fragment (strconv's shortest-digits algorithm).
 func (e *Exec) formatSymFloat(t *Term) Str {
 	tt := e.tt
 	integral := tt.FPCmp("fp.eq", tt.FPRound("RTZ", t), t)
-	small := tt.And(tt.FPCmp("fp.lt", t, tt.FP64(1e15)), tt.FPCmp("fp.gt", t, tt.FP64(-1e15)))
+	small := tt.And(tt.FPCmp("fp.lt", t, tt.FP64(1e6)), tt.FPCmp("fp.gt", t, tt.FP64(-1e6)))
 	if !e.path.branch(e, tt.And(integral, small), "fmt float integral") {
 		panic(abortErr{"fragment", "symbolic float64 that is not a small integer formatted with %v"})
 	}
